@@ -6,6 +6,7 @@ mod gen;
 mod layout;
 mod net;
 mod wire;
+mod text;
 mod netprops;
 mod c13;
 mod c14;
@@ -35,6 +36,8 @@ fn main() {
         "c03" => wire::run_c03(&a),
         "c04" => wire::run_c04(&a),
         "c11" => wire::run_c11(&a),
+        "c10" => text::run_c10(&a),
+        "c12" => text::run_c12(&a),
         "c05" => netprops::run_c05(&a),
         "c06" => netprops::run_c06(&a),
         "c07" => netprops::run_c07(&a),
